@@ -44,6 +44,10 @@ NAMES = {
  'proper-prefixes': ['Johnny B', 'Johnny B Goode', 'Johnny Bravo', 'B Goode Johnny'],
  'proper-prefixes-upper': ['JOHNNY B', 'JOHNNY B GOODE', 'JOHNNY BRAVO', 'B GOODE JOHNNY'],
  'common-prefixes': ['my heart', 'my hearts', 'your heart', 'the heart'],
+ # same letters, different word boundaries / kinds: distinct spellings are distinct variables
+ 'proper-boundaries': ['Jo Anna Lee', 'Joanna Lee', 'Jo Annalee', 'Joan Nalee'],
+ 'common-boundaries': ['a nt', 'an t', 'ant', 'the ant'],
+ 'kind-boundaries': ['my heart', 'myheart', 'Myhe Art', 'the myheart'],
 }
 BOUNDS = {'programs': '%d templates x %d naming schemes (every name kind, re-cased variants, fresh names) + per-mention re-casing + keyword re-casing (upper / capitalised / alternating)' % (len(BASE), len(NAMES)),
           'values': 'number placeholders are any double (loop bound in -1..=3)', 'observables': 'written lines and outcome of the transformed program equal those of the simple-lower original (z3, for all placeholder values)'}
